@@ -166,7 +166,7 @@ CLAIMS = {
 # clauses added in round 6 (appended to the claim text of the property)
 ROUND6 = {
     "C01": " Round 6: every index simple_batch returns comes from a selection primitive (no argsort shortcut), nothing blanks offered candidates after the mapping scatter, quotients by conditionally accumulated counts are zero-guarded (a genuine ZeroDivisionError of ValueOfInformationEER was repaired), full_like(prototype, nan) needs a float dtype, pick buffers / translated picks / fallback re-marks are indexed consistently; the returned indices are never a row-wise optimum of several rows taken at once (round 7).",
-    "C02": " Round 6: NaN stores into a returned row inside a selection loop are indexed by the picks only (not by label-initialised arrays); a batch is never the row-wise optimum of several rows at once unless the rows come from a sequentially selecting helper; the array handed to simple_batch must-depends on the candidates.",
+    "C02": " Round 6: NaN stores into a returned row inside a selection loop are indexed by the picks only (not by label-initialised arrays); a batch is never the row-wise optimum of several rows at once unless the rows come from a sequentially selecting helper; the array handed to simple_batch must-depends on the candidates; round 7: a pick-indexed update of what the operand is computed from is not switched off by a loop-invariant flag.",
     "C04": " Round 6: the strategy's manager is a private object (deep copy / new instance, also through factory methods); no increment under a constructor-flag test; no bounded-width dtype in the accounting code; ONE query_by_utility consultation per chunk (known finding: the density-based strategies consult per candidate against the committed state - reproduced, 40 labels in a chunk of 50 at budget 0.1).",
     "C06": " Round 6: a pool query reads no fitted attribute it has not computed in the same call (known finding: ProbCover's cache); round 7: the sampling method looked up by name on the caller's ensemble is given the strategy's generator (genuine defect of QueryByCommittee / BALD repaired).",
     "C07": " Round 6: the forced-maximum store for the wrapped strategy's pick is unconditional (shared with C20).",
